@@ -17,3 +17,13 @@
     pub(crate) fn dec_match<R: RangeReader>(d: &mut LZMADecoder, ps: u32, rc: &mut RangeDecoder<R>) -> u32 { d.decode_match(ps, rc) }
     pub(crate) fn dec_coder(d: &LZMADecoder) -> (&[i32; crate::REPS], u8) { (&d.coder.reps, d.coder.state.get()) }
     pub(crate) fn dec_parts(d: &LZMADecoder) -> (&crate::LZMACoder, &LengthCoder, &LengthCoder) { (&d.coder, &d.match_len_decoder, &d.rep_len_decoder) }
+
+    /// scaffolding for the literal mirror: a fresh literal sub-decoder behind an opaque wrapper (its type is private)
+    pub(crate) struct LitDec(LiteralSubDecoder);
+    impl LitDec {
+        pub(crate) fn new() -> Self { LitDec(LiteralSubDecoder::new()) }
+        pub(crate) fn probs(&self) -> &crate::LiteralSubCoder { &self.0.coder }
+        pub(crate) fn decode<R: RangeReader>(&mut self, coder: &mut crate::LZMACoder, lz: &mut LZDecoder, rc: &mut RangeDecoder<R>) -> crate::Result<()> {
+            self.0.decode(coder, lz, rc)
+        }
+    }
